@@ -633,7 +633,7 @@ static void tvd_run(const tvd_fn *f, unsigned long long seed, int fidx, int nran
             if (rec.stage == 2) {
                 compared++;
                 if (strcmp(cxx_r, rec.r) != 0) { if (dis++ < 25) tvd_emit("dis", f, &tvd_inputs[rec.j], cxx_r, rec.r); }
-                else if (rec.j == 0 || rec.j == nbound / 2 || rec.j == nbound || rec.j == n - 1) tvd_emit("sample", f, &tvd_inputs[rec.j], cxx_r, rec.r);
+                else if (rec.j == 0 || rec.j == 3 || rec.j == nbound || rec.j == n - 1) tvd_emit("sample", f, &tvd_inputs[rec.j], cxx_r, rec.r);
             }
         }
         close(pp[0]);
@@ -802,7 +802,7 @@ def _build(session, u, tu_rel, cands, closures, tag, defines, corrupt, libs):
     open(os.path.join(d, 'driver.cpp'), 'w').write(dtext)
     ext = 'CppUTestExt' in tu_rel
     def cc_c(san):
-        return _run(['gcc', '-std=gnu11', '-O0', '-g', '-w'] + (SAN if san else []) + ['-D' + x for x in defines] + ['-c', 'cside.c', '-o', 'cside%d.o' % san], cwd=d, timeout=300)
+        return _run(['gcc', '-std=gnu11', '-O0', '-g', '-w', '-Werror=implicit-function-declaration'] + (SAN if san else []) + ['-D' + x for x in defines] + ['-c', 'cside.c', '-o', 'cside%d.o' % san], cwd=d, timeout=300)
     def cc_d(san):
         return _run(['g++'] + cxx_flags(session, defines) + ['-g', '-fno-access-control', '-I' + REPO] + (SAN if san else []) + ['-c', 'driver.cpp', '-o', 'driver%d.o' % san], cwd=d, timeout=300)
     with ThreadPoolExecutor(max_workers=2) as ex:
